@@ -131,12 +131,28 @@ CLAIMED = {
 
 NOT_YET = "check not built yet (work in progress; see DESIGN.md section 5)"
 
+# what the fourth round of seeded changes added to each check (appended to the level text)
+ROUND4 = {
+    "C02": " In half of the direct cases the same search instance first answers a search to another destination.",
+    "C03": " In the application variant an earlier query on the same application declares the same feature names in other units and/or with other initial values.",
+    "C05": " A quarter of the restricted cases express the restriction through the vehicle-restriction model (height limits in three units), with a low vehicle answered first by the same service.",
+    "C06": " The load balancer also takes weights named by category (with and without a default).",
+    "C07": " Feature names are chosen so that their alphabetical order differs from their order in the state vector.",
+    "C11": " Maps and state models with hundreds to tens of thousands of entries (127...257, 300, 1000 and 70 000 enumerated for all three construction paths; 13-3000 generated).",
+    "C15": " Two enumerated networks of 4 000 and 9 000 vertices (thorough: 30 000 and 70 000) as gzip files with scanned counts; one case in six is also questioned through the application's graph accessors (language bindings), where a unit text must be refused or answered in the unit it names.",
+    "C16": " Every other vehicle query is preceded on the same plugin by its twin without a vehicle description.",
+    "C17": " Object-valued choices may bring a nested section under a name the query already uses for an object (replaced as a whole).",
+    "C18": " A third of the generated graphs are loaded from edge and vertex files through the application's graph builder instead of being assembled in memory.",
+    "C19": " The sink is the application's policy, a policy handed over in the run configuration (JSON form), or a combined policy with a second newline-delimited JSON file that is judged as well; under the discard policy no search response may come back.",
+}
+
 checks = []
 for p in props:
     pid = p["id"]
     if pid not in CLAIMED:
         continue
     tech, text, note, ref = CLAIMED[pid]
+    text = text + ROUND4.get(pid, "")
     checks.append(
         {
             "property_id": pid,
